@@ -30,19 +30,19 @@ CHECKS = {
             "Multi-party steps with one dissenting link in one aspect (17 kinds incl. digest-less entries and respelled paths), dissenter at smallest/middle/largest key id, optionally co-signing another link, 8 repetitions each; delegated dissent through identical sub-layouts with differing directories.",
             "validity of links by construction", "5 C07"),
     "C08": ("fault_enumeration", "fault enumeration observed through the inspection command's own side effects",
-            "Complete grid failing stage (20) x inspection outcome (10) x rule set (6) x 1-2 inspections x level; each cell is one real verification in a fresh working directory; the inspection command records that it ran.",
+            "Complete grid failing stage (23) x inspection outcome (10) x rule set (6) x 1-2 inspections x level; each cell is one real verification in a fresh working directory; the inspection command records that it ran.",
             "/bin/sh present; stage ground truth by construction", "5 C08"),
     "C09": ("exploration", "round-trip monitor with negative controls",
             "sign (3 construction paths) -> 4 writers -> parse -> verify(#signers) must hold for hostile content and every key type; other key / bit flip / other PSS scheme must fail.",
             "ring correct; serde_json is the wire reader", "5 C09"),
     "C10": ("exploration", "differential monitor against an independent encoder + complete Unicode sweep",
-            "Canonicalisation of 4 spellings per generated value through 5 public routes (incl. a short-writing sink) compared with Python's encoder, parsed back, non-integers rejected; every Unicode scalar value as string and key; complete nesting sweep to the reader's depth limit.",
+            "Canonicalisation of 4 spellings per generated value through 7 public routes (incl. a short-writing sink and the crate's own readers) compared with Python's encoder, parsed back, non-integers rejected; every Unicode scalar value as string and key; complete nesting sweep to the reader's depth limit.",
             "Python json is the reference encoder/parser", "5 C10"),
     "C11": ("exploration", "differential monitor against the reference (OLPC) encoding with OpenSSL as foreign party",
             "Library signatures must equal/verify over Python-computed reference bytes; reference-bytes signatures (raw signer, OpenSSL) must be accepted; key ids recomputed.",
             "olpc_canon() matches securesystemslib; OpenSSL CLI correct; ed25519 determinism", "5 C11"),
     "C12": ("exploration", "cross-path identity monitor with OpenSSL encodings as the interoperability reference",
-            "Every public-key construction path for pool keys (thorough: +120 fresh OpenSSL keys): ids equal across paths, equal to an independent SHA-256 of the reference encoding, stable across JSON; OpenSSL's SPKI must import and re-export byte-identically; parsed key tables and end-to-end aliasing scenarios.",
+            "Every public-key construction path for pool keys (RSA moduli of 50 sizes from 2048 to 8192 bits; thorough: +120 fresh OpenSSL keys): ids equal across paths, equal to an independent SHA-256 of the reference encoding, stable across JSON; OpenSSL's SPKI must import and re-export byte-identically; parsed key tables and end-to-end aliasing scenarios.",
             "OpenSSL's SubjectPublicKeyInfo is the standards-conformant reference; olpc_canon + SHA-256 in Python", "5 C12"),
     "C14": ("exploration", "crash monitor (catch_unwind + supervised sub-processes) + ASan, valgrind memcheck, Miri and libFuzzer passes",
             "28 entry points + rule application + final-product verification over hostile link directories, fed random bytes, byte/JSON mutations and well-typed adversarial documents; process death / CPU-limit kills are reproduced in isolation; thorough repeats the corpus under ASan, plain release, valgrind and Miri and runs 4 coverage-guided fuzz targets.",
@@ -51,7 +51,7 @@ CHECKS = {
             "Accepted documents of every wire type: 4 writers x (parse back equal, re-serialise byte-identical) and comparison of the re-serialised tree with the input after the documented normalisations.",
             "normalise() lists the documented normalisations; out-of-domain inputs are listed in the evidence", "5 C16"),
     "C17": ("exploration", "differential monitor across decoding channels and spellings",
-            "Valid and mutated documents of 14 public types x 3 spellings x 8 decoding channels: one outcome class and one value per document.",
+            "Valid and mutated documents of 14 public types x 3 spellings x 8 decoding channels plus the crate's own 'layout or link' entry points: one outcome class and one value per document and decode target.",
             "serde_json::Value parsing defines 'same content'", "5 C17"),
     "C18": ("exploration", "reference-walk monitor over generated directory trees and commands",
             "record_artifacts / in_toto_run on generated trees (symlinks, chains, cycles, odd names, sizes around the read buffer) compared with an independent os/hashlib walk; cyclic trees are checked with bounds.",
@@ -60,13 +60,13 @@ CHECKS = {
             "Documents from the wire schemas of all statement/predicate versions incl. every optional-field subset and every (declared, actual) type pair: exactly one accepting version, canonical form parses back equal (timestamps to the nanosecond), declared==actual, from_meta carries fields over.",
             "generator schemas transliterate the serde attributes; hook per-version parsers are the library's own", "5 C19"),
     "C13": ("exploration", "repetition monitor over fresh hash seeds and fresh processes",
-            "Order-sensitive scenarios (surplus differing links, co-signed files, one key under two ids, key ids in capitals, interacting inspections and sub-layouts, directory enumeration order on two file systems, histories) verified R x P times (up to 2500 per scenario); exactly one (verdict, summary) outcome allowed; distinct iteration / enumeration orders actually experienced are recorded.",
+            "Order-sensitive scenarios (surplus differing links, co-signed files, one key under two ids, key ids in capitals or sharing their short form, 144 failing verifications in between, interacting inspections and sub-layouts, directory enumeration order on two file systems, histories) verified R x P times (up to 2500 per scenario); exactly one (verdict, summary) outcome allowed; distinct iteration / enumeration orders actually experienced are recorded.",
             "std RandomState gives fresh keys per map/process", "5 C13"),
     "C15": ("exploration", "reference-oracle monitor over delegation trees with exact summary comparison",
             "One failure mode injected into one delegated node of a depth 1-3 tree; positive controls compare the returned summary link with the value computed from the descriptor.",
             "ground truth by construction", "5 C15"),
     "C20": ("exploration", "round-trip / injectivity dictionary monitor + enumerated decoder inputs",
-            "PAE pack/unpack (hook): round trip, comparison with an independent encoder, injectivity dictionary, ~10^6 enumerated decoder inputs must yield pair or error.",
+            "PAE pack/unpack (hook): round trip over a complete length sweep, payloads to 10 MB, comparison with an independent encoder, injectivity dictionary, ~10^6 enumerated decoder inputs must yield pair or error.",
             "DSSE v1 PAE definition as transliterated", "5 C20"),
 }
 
